@@ -473,6 +473,57 @@ func c19Run(run *ev.Run) {
 		}
 	}
 	run.Class("startup|all-triples")
+	// volume: one Secret rotated many times (the object's resourceVersion grows past 9, 99, ...), reconciled after
+	// every rotation: each value must arrive - also after a delete + re-create, which restarts the version
+	rot := 120
+	if run.Tier == "thorough" {
+		rot = 1100
+	}
+	{
+		spec := c19Spec{[]string{"ref:s1", "literal", "ref:s1"}}
+		s, err := newC19Sys(spec)
+		if err != nil {
+			run.HarnessError("C19 volume: " + err.Error())
+		} else {
+			ctx := context.Background()
+			for k := 0; k < rot; k++ {
+				val := fmt.Sprintf("rot-%d", k)
+				if k == rot/2 {
+					// half-way: the object is deleted and created anew
+					if cur := s.get("default", "s1"); cur != nil {
+						cur.Finalizers = nil
+						_ = s.kube.Update(ctx, cur)
+						if cur2 := s.get("default", "s1"); cur2 != nil {
+							_ = s.kube.Delete(ctx, cur2)
+						}
+					}
+				}
+				if cur := s.get("default", "s1"); cur != nil {
+					cur.Data = map[string][]byte{"client-secret": []byte(val)}
+					_ = s.kube.Update(ctx, cur)
+				} else {
+					_ = s.kube.Create(ctx, &corev1.Secret{ObjectMeta: metav1.ObjectMeta{Namespace: "default", Name: "s1"}, Data: map[string][]byte{"client-secret": []byte(val)}})
+				}
+				_, _ = s.ctl.Reconcile(ctx, ctrl.Request{NamespacedName: types.NamespacedName{Namespace: "default", Name: "s1"}})
+				total.Transitions++
+				for _, i := range []int{0, 2} {
+					if got := s.filters[i].GetClientSecret(); got != val {
+						rv := ""
+						if cur := s.get("default", "s1"); cur != nil {
+							rv = cur.ResourceVersion
+						}
+						run.Violation("C19 referencing-filter-not-updated event=reconcile volume",
+							fmt.Sprintf("rotation %d of default/s1 (resourceVersion %s): filter %d has client secret %q, the Secret holds %q", k, rv, i, got, val),
+							map[string]any{"volume": true, "rotation": k})
+						k = rot
+						break
+					}
+				}
+			}
+			s.Close()
+			run.Class(fmt.Sprintf("volume|rotations=%d", rot))
+		}
+	}
 	run.States, run.Transitions, run.Traces, run.Evals = total.States, total.Transitions, total.Histories, total.Transitions
 	run.Extra["depth"] = depth
 }
